@@ -6,8 +6,10 @@
 #define FLT_RADIX 2
 #define FLT_ROUNDS 1      // C11 5.2.4.2.2p8: to nearest
 
+#define FLT_DECIMAL_DIG 9
 #define FLT_DIG 6
 #define FLT_EPSILON 0x1p-23
+#define FLT_HAS_SUBNORM 1
 #define FLT_MANT_DIG 24
 #define FLT_MAX 0x1.fffffep+127
 #define FLT_MAX_10_EXP 38
@@ -17,8 +19,10 @@
 #define FLT_MIN_EXP -125
 #define FLT_TRUE_MIN 0x1p-149
 
+#define DBL_DECIMAL_DIG 17
 #define DBL_DIG 15
 #define DBL_EPSILON 0x1p-52
+#define DBL_HAS_SUBNORM 1
 #define DBL_MANT_DIG 53
 #define DBL_MAX 0x1.fffffffffffffp+1023
 #define DBL_MAX_10_EXP 308
@@ -28,8 +32,10 @@
 #define DBL_MIN_EXP -1021
 #define DBL_TRUE_MIN 0x0.0000000000001p-1022
 
+#define LDBL_DECIMAL_DIG 21
 #define LDBL_DIG 18
 #define LDBL_EPSILON 0x1p-63L
+#define LDBL_HAS_SUBNORM 1
 #define LDBL_MANT_DIG 64
 #define LDBL_MAX 0x1.fffffffffffffffep+16383L
 #define LDBL_MAX_10_EXP 4932
